@@ -380,6 +380,12 @@ def inplace_rows(repo):
             for node in ast.walk(fn):
                 if isinstance(node, ast.Call) and any(kw.arg == "out" for kw in node.keywords):
                     rows.append((rel, qn, "out-kwarg", UNKNOWN, False, ast.unparse(node)))
+                # modules / functionals asked to work in place (nn.Dropout(inplace=True), F.relu(x, inplace=True)): they overwrite
+                # an activation that an earlier operation may have saved for its backward pass
+                if isinstance(node, ast.Call):
+                    for kw in node.keywords:
+                        if kw.arg == "inplace" and not (isinstance(kw.value, ast.Constant) and kw.value.value is False):
+                            rows.append((rel, qn, "inplace-kwarg", UNKNOWN, False, ast.unparse(node)))
     return rows
 
 
